@@ -23,8 +23,15 @@ package rules
 //   - calls that are not entered are recorded as events with their abstract receiver and arguments; a local whose
 //     address is handed to such a call is unknown afterwards unless it holds a pointer (encoding/xml and
 //     encoding/json fill the pointee of a non-nil pointer and keep the pointer).
-// Anything outside the modelled statement/expression forms yields an unknown value or a "stuck" path that the rules
-// report as undecided; the interpreter never guesses.
+//   - pointers to fields (&x.F, out-parameters **T), function literals (closures share the variables of the path),
+//     method values, deferred calls (arguments evaluated at the defer statement, run when the frame returns, named
+//     results included), counted loops whose bound the path knows, and unexported package-level variables that are
+//     never reassigned (dispatch tables, evaluated from their initialiser) are followed (c03_eval_ref.go,
+//     c03_eval_func.go); a call through a repository interface on a value of known concrete type is the call of that
+//     type's method.
+// Anything outside the modelled forms - goroutines, goto, select, generic functions, a call whose target is not known
+// on the path - makes the exploration undecided (Aborted, reported by every rule as UNDECIDED with the position and
+// the reason); the interpreter never guesses.
 
 import (
 	"fmt"
@@ -52,6 +59,8 @@ const (
 	c03KInit          // symbolic initial value: Root + Path
 	c03KTuple         // multi-value result
 	c03KSpread        // list element standing for "all elements of From[0]" (append(a, b...))
+	c03KRef           // interior pointer: address of field Path of what Base points to
+	c03KFunc          // function literal (closure over the path's variables)
 )
 
 // c03Root is what a symbolic value hangs off.
@@ -83,7 +92,10 @@ type c03V struct {
 	From   []*c03V
 	Call   *ast.CallExpr // KUnk: the call that produced the value
 	Fn     *types.Func
-	LenOf  *c03V // KUnk: the value is len(LenOf)
+	LenOf  *c03V        // KUnk: the value is len(LenOf)
+	Keys   []*c03V      // KList built from a map literal: the keys, parallel to Elems
+	Lit    *ast.FuncLit // KFunc
+	Env    *c03Frame    // KFunc: the frame the literal was evaluated in
 	Site   ast.Node
 }
 
@@ -127,6 +139,17 @@ func (v *c03V) String() string {
 		return "(" + strings.Join(s, ", ") + ")"
 	case c03KSpread:
 		return v.From[0].String() + "..."
+	case c03KRef:
+		s := "&" + v.Base.String()
+		for _, f := range v.Path {
+			s += "." + f.Name()
+		}
+		return s
+	case c03KFunc:
+		if v.Fn != nil {
+			return "func " + funcName(v.Fn)
+		}
+		return "func literal"
 	}
 	if v.LenOf != nil {
 		return "len(" + v.LenOf.String() + ")"
@@ -220,6 +243,8 @@ type c03Frame struct {
 	parent *c03Frame
 	call   *ast.CallExpr
 	depth  int
+	label  string       // pseudo frames (function literals, package-level initialisers)
+	lit    *ast.FuncLit // the literal a closure frame executes
 }
 
 func (fr *c03Frame) info() *types.Info { return fr.fi.Pkg.TypesInfo }
@@ -236,19 +261,25 @@ func (fr *c03Frame) Root() *c03Frame {
 func (fr *c03Frame) Stack() string {
 	var s []string
 	for f := fr; f != nil; f = f.parent {
-		s = append([]string{f.fi.Name()}, s...)
+		if f.label != "" {
+			s = append([]string{f.label}, s...)
+		} else {
+			s = append([]string{f.fi.Name()}, s...)
+		}
 	}
 	return strings.Join(s, " -> ")
 }
 
 // c03State is the abstract store of one path.
 type c03State struct {
-	vars  map[types.Object]*c03V
-	heap  map[int]*c03V     // objects allocated on the path (struct values or whole values)
-	mem   map[string]*c03V  // contents of symbolic objects written through (keyed by the Key of the symbolic pointer/struct)
-	known map[string]tri    // refinements: Key -> is zero
-	strs  map[string]string // refinements: Key -> the string the value was found equal to
-	Trace []c03Event
+	vars   map[types.Object]*c03V
+	heap   map[int]*c03V     // objects allocated on the path (struct values or whole values)
+	mem    map[string]*c03V  // contents of symbolic objects written through (keyed by the Key of the symbolic pointer/struct)
+	known  map[string]tri    // refinements: Key -> is zero
+	strs   map[string]string // refinements: Key -> the string the value was found equal to
+	Trace  []c03Event
+	x      *c03Interp
+	defers map[*c03Frame][]c03Deferred
 }
 
 func c03NewState() *c03State {
@@ -273,6 +304,13 @@ func (st *c03State) clone() *c03State {
 		n.strs[k] = v
 	}
 	n.Trace = st.Trace[:len(st.Trace):len(st.Trace)]
+	n.x = st.x
+	if len(st.defers) > 0 {
+		n.defers = make(map[*c03Frame][]c03Deferred, len(st.defers))
+		for k, v := range st.defers {
+			n.defers[k] = v
+		}
+	}
 	return n
 }
 
@@ -294,6 +332,10 @@ func (st *c03State) Pointee(v *c03V) *c03V {
 	case c03KInit:
 		if m := st.mem[v.Key]; m != nil {
 			return m
+		}
+	case c03KRef:
+		if st.x != nil {
+			return st.x.refTarget(st, v, nil, nil)
 		}
 	}
 	return nil
@@ -324,7 +366,7 @@ func (st *c03State) Zero(v *c03V) tri {
 			return triT
 		}
 		return triF
-	case c03KPtr, c03KAddr:
+	case c03KPtr, c03KAddr, c03KRef, c03KFunc:
 		return triF
 	case c03KList:
 		if len(v.Elems) > 0 {
@@ -359,6 +401,14 @@ func (v *c03V) Ident() string {
 		return fmt.Sprintf("h%d", v.Obj)
 	case c03KAddr:
 		return fmt.Sprintf("v%p", v.Var)
+	case c03KRef:
+		if b := v.Base.Ident(); b != "" || v.Base.Key != "" {
+			s := "r" + b + v.Base.Key
+			for _, f := range v.Path {
+				s += "." + f.Name()
+			}
+			return s
+		}
 	}
 	return ""
 }
@@ -389,10 +439,15 @@ type c03Interp struct {
 	// ErrNil makes error results of calls that are not entered nil ("assume the call succeeds").
 	ErrNil func(fn *types.Func) bool
 
+	// AllowDynamic: calls whose target is not known statically are treated as opaque calls instead of making the
+	// exploration undecided.
+	AllowDynamic bool
+
 	MaxPaths int
 	Aborted  string
 	nid      int
 	budget   int
+	globals  map[*types.Var]*c03Global
 	pending  []c03Out // paths that ended inside an expression (panic, stuck or loop back edge in an inlined callee)
 }
 
@@ -434,6 +489,7 @@ func (x *c03Interp) Run(fi *FuncInfo, bind func(st *c03State)) []*c03Path {
 	x.Aborted = ""
 	x.pending = nil
 	st := c03NewState()
+	st.x = x
 	fr := &c03Frame{fi: fi}
 	sig := fi.Obj.Type().(*types.Signature)
 	if rv := sig.Recv(); rv != nil {
@@ -451,12 +507,15 @@ func (x *c03Interp) Run(fi *FuncInfo, bind func(st *c03State)) []*c03Path {
 		bind(st)
 	}
 	var paths []*c03Path
-	outs := x.execBlock(fr, st, fi.Decl.Body.List)
+	outs := x.runDefers(fr, x.execBlock(fr, st, fi.Decl.Body.List), c03NamedResults(sig))
 	// a construct the interpreter does not model makes the whole exploration undecided: the rules report Aborted
 	for _, o := range append(append([]c03Out{}, outs...), x.pending...) {
 		for _, e := range o.st.Trace {
 			if e.Kind == "unsupported" && x.Aborted == "" {
 				x.Aborted = "unmodelled construct at " + x.P.Rel(e.Node.Pos()) + ": " + e.Why
+			}
+			if e.Kind == "dynamic" && x.Aborted == "" && !x.AllowDynamic {
+				x.Aborted = "at " + x.P.Rel(e.Node.Pos()) + ": " + e.Why + " (the code it runs is not followed)"
 			}
 		}
 		if o.ctl == c03Stuck && x.Aborted == "" {
@@ -562,6 +621,8 @@ func (x *c03Interp) field(st *c03State, v *c03V, f *types.Var, at ast.Node, fr *
 		return x.field(st, st.heap[v.Obj], f, at, fr)
 	case c03KAddr:
 		return x.field(st, st.vars[v.Var], f, at, fr)
+	case c03KRef:
+		return x.field(st, x.refTarget(st, v, at, fr), f, at, fr)
 	case c03KNil:
 		st.event(c03Event{Kind: "nilderef", Node: at, Frame: fr, Why: "field " + f.Name() + " of a nil pointer"})
 		return x.unk(f.Type())
@@ -630,6 +691,9 @@ func (x *c03Interp) setField(st *c03State, base *c03V, fs []*types.Var, val *c03
 		return nil
 	}
 	switch base.K {
+	case c03KRef:
+		x.refStore(st, base, fs, val, at, fr)
+		return nil
 	case c03KPtr:
 		if nv := inner(st.heap[base.Obj]); nv != nil {
 			st.heap[base.Obj] = nv
